@@ -123,8 +123,8 @@ def check(rng, deep):
     T = 8
     mc = m.multi_calib()
     fixtures = [('sim', m.sim, m.SIM_CALIB, ['r', 'w', 'beta', 'sd_e', 'rho_e'], ['A', 'C', 'SHARE', 'AINC'], True),
-                ('pair_het', m.pair_het, m.PAIR_CALIB, ['r', 'atw', 'shift', 'risk', 'sd_e'], ['A', 'C', 'UC'], True),
-                ('pair_stage', m.pair_stage, m.PAIR_CALIB, ['r', 'atw', 'shift', 'risk', 'sd_e'], ['A', 'C', 'UC'], False),
+                ('pair_het', m.pair_het, m.PAIR_CALIB, ['r', 'atw', 'shift', 'risk', 'sd_e'], ['A', 'C', 'UC', 'VPU'], True),
+                ('pair_stage', m.pair_stage, m.PAIR_CALIB, ['r', 'atw', 'shift', 'risk', 'sd_e'], ['A', 'C', 'UC', 'VPU'], False),
                 ('multi', m.multi, mc, ['r', 'w', 'shift_e', 'shift_z'], ['A', 'C'], True),
                 ('multi_stage', m.multi_stage, mc, ['r', 'shift_e', 'shift_z'], ['A', 'C'], False),      # two exogenous STAGES with separately produced Markov matrices: shocking one leaves the other stage's law of motion unperturbed
                 ('twoasset', m.twoasset, m.TWO_CALIB, ['rb', 'ra', 'tax'], ['A', 'B', 'C'], True),
